@@ -1,5 +1,8 @@
 (* C15/Properties.v — property theorems only; each closed by a lemma of C15/Proofs.v. *)
+From Coq Require Import Permutation.
 From Relic Require Import Base.Prelude Generated.C15_gen C15.Model C15.Proofs.
+From Relic Require Import C15.Time C15.TimeProofs C15.Rpc C15.RpcProofs C15.CacheRetry C15.CacheRetryProofs C15.Life C15.LifeProofs.
+From Relic Require C14.ModelCache C14.ProofsCache C15.CacheSchedProofs.
 
 (* i-th inter-attempt delay (ms): capped exponential *)
 Fixpoint delay_at (i : nat) : Z := match i with O => initial_delay_ms | S k => next_delay (delay_at k) end.
@@ -85,4 +88,263 @@ Example retry_then_success :
   do_retry 0 [OHttp 503; OErrClass 1; OSuccess] (-1) = (RSuccess, 3, [1000; 2718]) /\
   do_retry 3 [OHttp 503; OUsage; OSuccess] (-1) = (RFail OUsage, 2, [1000]) /\
   do_retry 2 [OTokErr true; OTokErr true; OSuccess] (-1) = (RFail (OTokErr true), 2, [1000]).
+Proof. vm_compute. repeat split. Qed.
+
+(* =====================================================================================================================
+   (a) doRetry WITH TIME — every fault sequence, every attempt duration, every instant at which the caller's context ends
+   ===================================================================================================================== *)
+
+(* the loop of retry.go is the chain specification: attempts separated by the backoff schedule, made only while attempts
+   remain and the caller's context is alive, answered by the last attempt or by the context *)
+Theorem timed_is_spec : forall r ts b script,
+  do_retry_timed r ts b script = spec_retry delay_ns_at (eff_retries_t r) (eff_timeout ts) b script.
+Proof. exact C15.TimeProofs.timed_is_spec. Qed.
+(* total attempts: at least one, at most the configured number *)
+Theorem timed_attempts_bounded : forall r ts b script,
+  1 <= zlen (tr_atts (do_retry_timed r ts b script)) <= eff_retries_t r.
+Proof. exact C15.TimeProofs.timed_attempts_bounded. Qed.
+(* the first attempt starts at once; consecutive attempts are separated by exactly the scheduled delays *)
+Theorem timed_first_attempt : forall r ts b script,
+  exists e o rest, tr_atts (do_retry_timed r ts b script) = mkA 0 e o :: rest.
+Proof. exact C15.TimeProofs.timed_first_attempt. Qed.
+Theorem timed_delays_exact : forall r ts b script, chain_ok delay_ns_at 0 (tr_atts (do_retry_timed r ts b script)).
+Proof. exact C15.TimeProofs.timed_delays_exact. Qed.
+(* no retry starts once the caller's context has ended; with a context that is alive at the call, no attempt at all *)
+Theorem timed_no_retry_after_cancel : forall r ts b script c, bc_at b = Some c ->
+  Forall (fun a => ar_start a < c) (tl (tr_atts (do_retry_timed r ts b script))).
+Proof. exact C15.TimeProofs.timed_no_retry_after_cancel. Qed.
+Theorem timed_no_attempt_after_cancel : forall r ts b script c, bc_at b = Some c -> 0 < c ->
+  Forall (fun a => ar_start a < c) (tr_atts (do_retry_timed r ts b script)).
+Proof. exact C15.TimeProofs.timed_no_attempt_after_cancel. Qed.
+(* ... but the first attempt is unconditional: called with a context that has already ended, doRetry still calls doOnce *)
+Theorem timed_no_attempt_after_cancel_refuted :
+  exists r ts b script c a, bc_at b = Some c /\ In a (tr_atts (do_retry_timed r ts b script)) /\ c <= ar_start a.
+Proof. exact C15.TimeProofs.timed_no_attempt_after_cancel_refuted. Qed.
+(* promptness: the operation never outlives the caller's context *)
+Theorem timed_cancel_prompt : forall r ts b script c, bc_at b = Some c ->
+  0 <= tr_end (do_retry_timed r ts b script) <= Z.max c 0.
+Proof. exact C15.TimeProofs.timed_cancel_prompt. Qed.
+(* faithfulness: success iff the last attempt succeeded; an error is the last attempt's, unchanged, returned when that
+   attempt ended; a context error only if the context ended, after a transient failure *)
+Theorem timed_result_faithful : forall r ts b script, result_ok b (do_retry_timed r ts b script).
+Proof. exact C15.TimeProofs.timed_result_faithful. Qed.
+Theorem timed_prefix_transient : forall r ts b script,
+  Forall (fun a => ar_out a <> OSuccess /\ temporary (ar_out a) = true) (removelast (tr_atts (do_retry_timed r ts b script))).
+Proof. exact C15.TimeProofs.timed_prefix_transient. Qed.
+(* why it stopped: success, a permanent failure, the attempt limit, or the context ending before the next attempt was due *)
+Theorem timed_stop_reason : forall r ts b script a,
+  last_rec (tr_atts (do_retry_timed r ts b script)) = Some a ->
+  let n := length (tr_atts (do_retry_timed r ts b script)) in
+  ar_out a = OSuccess \/ temporary (ar_out a) = false \/ Z.of_nat n = eff_retries_t r \/
+  (exists c, bc_at b = Some c /\ c <= ar_end a + Z.max 0 (delay_ns_at (n - 1))).
+Proof. exact C15.TimeProofs.timed_stop_reason. Qed.
+(* every recorded attempt is the scripted attempt of that index under the per-attempt timeout and the caller's context *)
+Theorem timed_attempts_faithful : forall r ts b script j a,
+  nth_error (tr_atts (do_retry_timed r ts b script)) j = Some a ->
+  (ar_out a, ar_end a) = spec_attempt b (eff_timeout ts) (ar_start a) (nth j script default_att).
+Proof. exact C15.TimeProofs.timed_attempts_faithful. Qed.
+(* which failures are transient: exactly the specified classes *)
+Theorem temporary_is_spec : forall o, temporary o = spec_transient o.
+Proof. exact C15.TimeProofs.temporary_is_spec. Qed.
+(* configuration *)
+Theorem eff_timeout_spec : forall ts, eff_timeout ts = if ts =? 0 then 60000000000 else ts * 1000000000.
+Proof. exact C15.TimeProofs.eff_timeout_spec. Qed.
+Theorem negative_timeout_never_succeeds : forall r ts b script, ts < 0 ->
+  tr_result (do_retry_timed r ts b script) <> TSuccess.
+Proof. exact C15.TimeProofs.negative_timeout_never_succeeds. Qed.
+(* the backoff schedule (float32 arithmetic of retry.go, exactly): capped exponential, monotone, bounded *)
+Theorem backoff_capped_exponential : forall k, Z.abs (delay_ns_at k - spec_delay k) <= 4096.
+Proof. exact C15.TimeProofs.backoff_capped_exponential. Qed.
+Theorem backoff_monotone : forall k, delay_ns_at k <= delay_ns_at (S k).
+Proof. exact C15.TimeProofs.backoff_monotone. Qed.
+Theorem backoff_bounded : forall k, initial_delay_f32 <= delay_ns_at k <= 30000001024.
+Proof. exact C15.TimeProofs.backoff_bounded. Qed.
+
+Example backoff_ns : map delay_ns_at (seq 0 6) = [1000000000; 2717999872; 7387523584; 20079288320; 30000001024; 30000001024].
+Proof. exact C15.TimeProofs.delay_values. Qed.
+Example timed_runs :
+  (* two transient failures, then success: attempts at 0, 1 s after the first ended, 2.718 s after the second ended *)
+  do_retry_timed 3 1 never [mkAtt (OHttp 503) 5; mkAtt (OErrClass 1) 7; mkAtt OSuccess 9] =
+    (TSuccess, 3717999893, [mkA 0 5 (OHttp 503); mkA 1000000005 1000000012 (OErrClass 1); mkA 3717999884 3717999893 OSuccess]) /\
+  (* the caller cancels 1.5 s in, during the second wait: returned at that instant with the context's error *)
+  do_retry_timed 3 1 (mkBase (Some 1500000000) KCanceled) [mkAtt (OHttp 503) 5; mkAtt (OErrClass 1) 7; mkAtt OSuccess 9] =
+    (TCtx KCanceled, 1500000000, [mkA 0 5 (OHttp 503); mkA 1000000005 1000000012 (OErrClass 1)]) /\
+  (* an attempt that outlasts the 1 s per-attempt timeout counts as a timeout (transient); the last error is returned *)
+  do_retry_timed 2 1 never [mkAtt OSuccess 1500000000; mkAtt (OTokErr false) 3] =
+    (TFail (OTokErr false), 2000000003, [mkA 0 1000000000 (OErrClass 3); mkA 2000000000 2000000003 (OTokErr false)]).
+Proof. vm_compute. repeat split. Qed.
+
+(* =====================================================================================================================
+   (b) the worker RPC boundary, for EVERY method of internal/workerrpc
+   ===================================================================================================================== *)
+
+(* the method table is closed: every method constant is called by the client and dispatched by the handler, nothing else is;
+   what the handler reads for a method the client filled in, what the client reads the handler set *)
+Theorem rpc_dispatch_complete : dispatch_complete = true /\ fields_sufficient = true.
+Proof. exact (conj C15.RpcProofs.dispatch_complete_ok C15.RpcProofs.fields_sufficient_ok). Qed.
+Theorem rpc_dispatch_iff : forall p, In p rpc_paths <-> dispatch_ops p handler_dispatch_cases <> None.
+Proof. exact C15.RpcProofs.dispatch_iff. Qed.
+(* messages survive the wire (given encoding/json's own round trip on these field types) *)
+Theorem rpc_request_roundtrip : forall r, decode_req (encode_req r) = r.
+Proof. exact C15.RpcProofs.request_roundtrip. Qed.
+Theorem rpc_response_roundtrip : forall r, decode_resp (encode_resp r) = r.
+Proof. exact C15.RpcProofs.response_roundtrip. Qed.
+(* the gate: without the secret nothing is read, parsed or dispatched; a malformed body or an unknown method never reaches
+   the token either *)
+Theorem rpc_unauthenticated_refused : forall tok body path, serve tok (mkSReq false body path) = (403, None, []).
+Proof. exact C15.RpcProofs.serve_unauth. Qed.
+Theorem rpc_token_reached_only_if : forall tok rq,
+  snd (serve tok rq) <> [] -> s_cookie_ok rq = true /\ s_body rq <> None /\ In (s_path rq) rpc_paths.
+Proof. exact C15.RpcProofs.token_reached_only_if. Qed.
+Theorem rpc_cookie_header_agrees : forall v, header_get handler_cookie_header client_cookie_header v = v.
+Proof. exact C15.RpcProofs.cookie_header_agrees. Qed.
+Theorem rpc_unauthenticated_not_retried : forall tok path rr,
+  exchange tok false path rr = (CHttpErr 403, []) /\ temporary (to_outcome (CHttpErr 403)) = false.
+Proof. intros. exact (conj (C15.RpcProofs.unauth_exchange tok path rr) C15.RpcProofs.unauth_not_retried). Qed.
+(* round trip of values and of classification, for every method: what the token did is what the caller sees — for EVERY
+   error value (wrapped by the backend or not, with or without a text) its class under errors.As semantics *)
+Theorem rpc_exchange_spec : forall tok path rr, In path rpc_paths ->
+  match tok_answer tok path rr with
+  | None => fst (exchange tok true path rr) = CSuccess (tok_values tok path rr)
+  | Some e => cres_class (fst (exchange tok true path rr)) = Some (spec_class e)
+  end.
+Proof. exact C15.RpcProofs.exchange_spec. Qed.
+(* a failed operation is never reported as success *)
+Theorem rpc_failure_never_success : forall tok path rr e r, In path rpc_paths ->
+  tok_answer tok path rr = Some e -> fst (exchange tok true path rr) <> CSuccess r.
+Proof. exact C15.RpcProofs.failure_never_success. Qed.
+Theorem rpc_retry_follows_class : forall c k, cres_class c = Some k ->
+  temporary (to_outcome c) = match k with KTransient _ => true | _ => false end.
+Proof. exact C15.RpcProofs.retry_follows_class. Qed.
+Theorem rpc_usage_never_retried : forall tok path rr k m, In path rpc_paths ->
+  tok_answer tok path rr = Some (EUsage k m) -> m <> [] ->
+  fst (exchange tok true path rr) = CUsage k m /\ temporary (to_outcome (fst (exchange tok true path rr))) = false.
+Proof. exact C15.RpcProofs.usage_never_retried. Qed.
+(* ... also when the backend wrapped it, and when it carries no message *)
+Theorem rpc_usage_through_wrappers : forall tok path rr e k m, In path rpc_paths ->
+  tok_answer tok path rr = Some e -> leaf e = EUsage k m ->
+  fst (exchange tok true path rr) = CUsage k (shown m) /\ temporary (to_outcome (fst (exchange tok true path rr))) = false.
+Proof. exact C15.RpcProofs.usage_through_wrappers. Qed.
+(* the two inputs on which relic used to fail (repaired by add50a2 and bc5e511), kept as facts about the current code *)
+Theorem rpc_wrapped_usage_classified :
+  let e := EWrapped [98; 97; 99; 107; 101; 110; 100; 58; 32] (EUsage [107; 49] [110; 111; 116; 32; 97; 108; 108; 111; 119; 101; 100]) in
+  let tok := mkTok (Some e) (fun _ _ => inl (EOther [])) (fun _ _ _ _ => inl (EOther [])) in
+  fst (exchange tok true pPing req0) = CUsage [107; 49] [110; 111; 116; 32; 97; 108; 108; 111; 119; 101; 100].
+Proof. exact C15.RpcProofs.wrapped_usage_classified. Qed.
+Theorem rpc_empty_error_text_is_error :
+  let tok := mkTok None (fun _ _ => inr (mkKI [1] [] [2])) (fun _ _ _ _ => inl (EOther [])) in
+  fst (exchange tok true pSign req0) = CTokErr serve_err_text_default true.
+Proof. exact C15.RpcProofs.empty_error_text_is_error. Qed.
+(* a request repeated by the retry loop after a lost reply repeats only Ping / GetKey / Sign: nothing that changes the token *)
+Theorem rpc_repeatable_operations_are_stateless : all_ops_stateless = true.
+Proof. exact C15.RpcProofs.all_ops_stateless_ok. Qed.
+
+Example rpc_sign_roundtrip :
+  let tok := mkTok None (fun n p => inr (mkKI [9] [8] [7])) (fun k d h s => inr (d ++ [0; 255])) in
+  exchange tok true rpc_path_Sign (mkReq [107; 49] (Some [9]) [1; 2; 3] 5 (Some 32)) =
+    (CSuccess (mkResp [1; 2; 3; 0; 255] [] [] [] [] false false),
+     [TGetKey [107; 49] [9]; TSign [107; 49] [9] [1; 2; 3] 5 (Some 32)]).
+Proof. vm_compute. reflexivity. Qed.
+
+(* =====================================================================================================================
+   (d) the key cache under retries
+   ===================================================================================================================== *)
+
+(* a failed lookup leaves the cache exactly as it was; deleting the failed lookups from a history changes nothing else *)
+Theorem cache_failure_changes_nothing : forall expiry st want now tok called st',
+  cache_get expiry st want now tok = (None, called, st') -> st' = st /\ called = true /\ tok = None.
+Proof. exact C15.CacheRetryProofs.cache_failure_changes_nothing. Qed.
+Theorem cache_retry_transparent : forall expiry ops st,
+  cache_hist expiry st (drop_failed expiry st ops) =
+  (filter (fun r => negb (failed r)) (fst (cache_hist expiry st ops)), snd (cache_hist expiry st ops)).
+Proof. exact C15.CacheRetryProofs.cache_retry_transparent. Qed.
+(* an answer comes from the live, acceptable entry or from the token asked now *)
+Theorem cache_answer_origin : forall expiry st want now tok k called st',
+  cache_get expiry st want now tok = (Some k, called, st') ->
+  (called = false /\ k = c_id st /\ c_has st = true /\ now < c_expires st /\ (want = [] \/ want = k) /\ st' = st) \/
+  (called = true /\ tok = Some k).
+Proof. exact C15.CacheRetryProofs.cache_answer_origin. Qed.
+(* whatever the cache holds was stored by an un-pinned lookup the token answered — never by a failed or a pinned one *)
+Theorem cache_only_holds_answers : forall expiry ops,
+  let st' := snd (cache_hist expiry c_empty ops) in
+  c_has st' = true -> exists o, In o ops /\ stored_by expiry st' o.
+Proof. exact C15.CacheRetryProofs.cache_only_holds_answers_from_empty. Qed.
+(* under EVERY interleaving of concurrent lookups (machine and linearizability theorem of C14): a failed fetch writes
+   nothing, the cache changes only after a successful fetch, the final cache is the one produced by the answered lookups,
+   and a pinned lookup is never answered with another key id *)
+Theorem cache_sched_failed_fetch : forall E tok rq i t s,
+  C14.ModelCache.t_pc t = C14.ModelCache.CMiss ->
+  C14.ModelCache.cs_cache (C14.ModelCache.cthread E tok rq i false t s) = C14.ModelCache.cs_cache s.
+Proof. exact C15.CacheSchedProofs.sched_failed_fetch. Qed.
+Theorem cache_sched_changes_only_after_fetch : forall E tok rq i fok t s,
+  C14.ModelCache.cs_cache (C14.ModelCache.cthread E tok rq i fok t s) <> C14.ModelCache.cs_cache s ->
+  exists k, C14.ModelCache.t_pc t = C14.ModelCache.CFetched k.
+Proof. exact C15.CacheSchedProofs.sched_cache_changes_only_after_fetch. Qed.
+Theorem cache_sched_failed_lookups_leave_no_trace : forall E tok rqs sched,
+  C14.ModelCache.cs_cache (C14.ModelCache.crun E tok rqs sched) =
+  fst (fold_left (C14.ModelCache.seq_op E tok rqs)
+                 (filter C14.ModelCache.l_ok (C14.ModelCache.history (C14.ModelCache.crun E tok rqs sched))) ([], [])).
+Proof. exact C15.CacheSchedProofs.sched_failed_lookups_leave_no_trace. Qed.
+Theorem cache_sched_pinned_id : forall E tok rqs sched i t rq k,
+  C14.ModelCache.tok_pin tok ->
+  nth_error (C14.ModelCache.cs_thr (C14.ModelCache.crun E tok rqs sched)) i = Some t -> nth_error rqs i = Some rq ->
+  C14.ModelCache.c_pin rq <> 0 ->
+  C14.ModelCache.cresult t = Some (Some k) -> C14.ModelCache.k_id k = C14.ModelCache.c_pin rq.
+Proof. exact C14.ProofsCache.cache_pinned_id. Qed.
+
+Example cache_retry_history :   (* empty cache; the token fails twice, then answers A; a lookup pinned to B bypasses the entry *)
+  cache_hist 100 c_empty [mkOp [] 0 None; mkOp [] 1 None; mkOp [] 2 (Some [65]); mkOp [] 3 None; mkOp [66] 4 (Some [66]); mkOp [] 5 None] =
+  ([(None, true); (None, true); (Some [65], true); (Some [65], false); (Some [66], true); (Some [65], false)], mkC true 102 [65]).
+Proof. vm_compute. reflexivity. Qed.
+
+(* =====================================================================================================================
+   (c) the worker process pool: monitor / spawn / Close and the requests that arrive meanwhile, for every event sequence
+   ===================================================================================================================== *)
+
+(* a request is never lost and never in two places: waiting in the accept queue, held by one worker, or finished with
+   exactly one fate (answered, dropped by a dying worker, or given up by the client) *)
+Theorem life_requests_conserved : forall target evs,
+  let q := snd (lrun target evs) in
+  NoDup (places q) /\ (forall rid, In rid (l_seen q) <-> In rid (places q)).
+Proof. exact C15.LifeProofs.life_requests_conserved. Qed.
+Theorem life_one_fate : forall target evs, NoDup (map fst (l_done (snd (lrun target evs)))).
+Proof. exact C15.LifeProofs.life_one_fate. Qed.
+(* only a live worker (ready or draining) holds or answers requests *)
+Theorem life_served_by_live_worker : forall target evs pid rid,
+  In (pid, rid) (l_inflight (snd (lrun target evs))) -> serving (status (l_child (fst (lrun target evs))) pid) = true.
+Proof. exact C15.LifeProofs.life_served_by_live_worker. Qed.
+Theorem life_answer_needs_live_worker : forall target evs pid rid,
+  let s := lrun target evs in
+  l_done (snd (lstep target s (LReply pid rid))) <> l_done (snd s) -> serving (status (l_child (fst s)) pid) = true.
+Proof. exact C15.LifeProofs.life_answer_needs_live_worker. Qed.
+(* the monitor's count is sound, it never stalls with no worker, and a spawn after a failed spawn waits restartDelay *)
+Theorem life_procs_accounted : forall target evs pid,
+  let p := fst (lrun target evs) in
+  In pid (l_procs p) -> alive (status (l_child p) pid) = true \/ In pid (l_exitq p).
+Proof. exact C15.LifeProofs.life_procs_accounted. Qed.
+Theorem life_no_stall : forall target evs b,
+  let p := fst (lrun target evs) in
+  1 <= target -> l_mon p = MIdle -> l_cancel p = false -> l_exitq p = [] ->
+  (forall pid, alive (status (l_child p) pid) = false) ->
+  exists pid dl, l_mon (monitor_step target p b) = MSpawning pid dl /\ status (l_child (monitor_step target p b)) pid = CStarting.
+Proof. exact C15.LifeProofs.life_no_stall. Qed.
+Theorem life_backoff : forall target evs f t pid,
+  let p := fst (lrun target evs) in
+  In f (l_fails p) -> In (t, pid) (l_spawns p) -> t <= f \/ f + restart_delay_ns <= t.
+Proof. exact C15.LifeProofs.life_backoff. Qed.
+(* a request that was not answered fails with a retryable error — except when the dying worker's connection is closed
+   rather than reset: io.EOF is not in the transient list *)
+Theorem life_fate_retryable : forall f, (forall pid, f <> FAnswered pid) -> (forall pid, f <> FDropped pid false) ->
+  temporary (fate_outcome f) = true.
+Proof. exact C15.LifeProofs.fate_retryable. Qed.
+Theorem life_dropped_always_retryable_refuted :
+  exists target evs rid pid, In (rid, FDropped pid false) (l_done (snd (lrun target evs))) /\ temporary (fate_outcome (FDropped pid false)) = false.
+Proof. exact C15.LifeProofs.life_dropped_always_retryable_refuted. Qed.
+
+Example life_crash_and_respawn :
+  (* worker 1 starts, accepts request 7 and dies; the monitor reaps it and starts worker 2, which answers request 8 that
+     arrived in between *)
+  let s := lrun 1 [LMonitor false; LReady 1; LArrive 7; LAccept 1 7; LExit 1 false; LArrive 8; LMonitor false; LMonitor false;
+                   LReady 2; LAccept 2 8; LReply 2 8] in
+  l_done (snd s) = [(8, FAnswered 2); (7, FDropped 1 false)] /\ l_procs (fst s) = [2] /\ l_spawns (fst s) = [(0, 2); (0, 1)].
 Proof. vm_compute. repeat split. Qed.
